@@ -1,11 +1,16 @@
-(* C20/Properties.v — the property theorems only.  Each is closed by [exact] of a lemma from Proofs.v
-   (or by vm_compute for a concrete witness) and followed by Print Assumptions.
+(* C20/Properties.v — the property theorems only.  Each is closed by [exact] of a lemma from Proofs*.v (or by vm_compute
+   for a concrete witness) and followed by Print Assumptions.
 
-   The machine of Model.v has two variants.  [Repaired] is the algorithm after
-   fixes/C20_series_accounting.patch; single-threaded it is observationally identical to today's code
-   (the check runs every sequential history against both variants).  [Defective] is today's algorithm.
-   The "for all interleavings" theorems are about [run_sched c (sys0 progs) sched] for EVERY list of client
-   programs and EVERY schedule (list of thread indices; each element = one atomic sync.Map / atomic step). *)
+   Machines (Model.v):
+     [run_sched c (sys0 progs) sched]   metric clients; EVERY list of client programs, EVERY schedule (list of thread
+                                        indices; one element = one atomic sync.Map / sync/atomic call)
+     [xrun c mode (xsys0 progs aprogs) xsched]  the same clients (plus the markDirty steps) interleaved with subscribe /
+                                        unsubscribe / tick / snapshot / drain threads
+     [rrun_sched v (rsys0 opts) sched]  Register{Counter,Gauge,Histogram} calls
+     [seq_run]                          one client, operations run to completion (what the sequential correspondence runs)
+   Variants: [Repaired] = /repo HEAD (both C20 fixes are committed); [Defective] = the code before them; [LoadAndDel] =
+   seeded change C20_n2.  Theorems are proved for Repaired; the `_refuted` theorems show the same statements false for
+   the other two. *)
 From OV Require Import Common.Base C20.Model C20.Proofs C20.Proofs2 C20.Proofs3.
 Open Scope Z_scope.
 
